@@ -51,8 +51,8 @@ type Contract struct {
 	Lemma    bool
 	Splits   []string
 	rawMods  []rawMod
-	Use      map[string]map[string]bool // callee → the callee's ensures clauses assumed at call sites (default: all)
-	Asserts  map[string][]*Clause // cut points: "before <callee>#<n>" → clauses checked, then assumed
+	Use      map[string]map[string]bool  // callee → the callee's ensures clauses assumed at call sites (default: all)
+	Asserts  map[string][]*Clause        // cut points: "before <callee>#<n>" → clauses checked, then assumed
 	Witness  map[string]map[string]SExpr // clause name → existential variable → witness term (tried at return sites)
 }
 
@@ -66,6 +66,11 @@ type SpecFunc struct {
 	Params []SVar
 	Body   SExpr
 	Src    string
+	// Pure: a function of its (scalar) arguments only; it becomes an SMT function
+	// symbol with a definitional axiom (unfolded on demand by the solver) instead
+	// of being expanded at every use
+	Pure bool
+	ResT types.Type
 }
 
 type Uninterp struct {
@@ -536,11 +541,14 @@ func (e *Engine) parseContracts() {
 				continue
 			}
 			f := strings.Fields(rest)
-			if len(f) < 3 || f[0] != "before" {
-				perr(l, "assert before <callee>#<n> name: expr")
+			if len(f) < 3 || (f[0] != "before" && f[0] != "after") {
+				perr(l, "assert before|after <callee>#<n> name: expr")
 				continue
 			}
 			key := f[1]
+			if f[0] == "after" {
+				key = "after " + key
+			}
 			body := strings.TrimSpace(rest[strings.Index(rest, f[1])+len(f[1]):])
 			if cur.Asserts == nil {
 				cur.Asserts = map[string][]*Clause{}
@@ -639,14 +647,15 @@ func splitTop(s string, sep byte) []string {
 }
 
 // modifies items:
-//   heap[T]            every object of type T
-//   *p  (p of type *T) the object p points to
-//   elems(s)           the elements of slice s
-//   map(m)             the contents of map m
-//   maps[map[K]V]      every map of that type
-//   new[T]             may allocate objects of type T / maps of type T (nothing existing changes)
-//   $rh                the ghost resource-observation state
-//   all
+//
+//	heap[T]            every object of type T
+//	*p  (p of type *T) the object p points to
+//	elems(s)           the elements of slice s
+//	map(m)             the contents of map m
+//	maps[map[K]V]      every map of that type
+//	new[T]             may allocate objects of type T / maps of type T (nothing existing changes)
+//	$rh                the ghost resource-observation state
+//	all
 func (e *Engine) resolveMods(c *Contract, perr func(rawLine, string, ...any)) {
 	for _, rm := range c.rawMods {
 		l := rawLine{rm.src, rm.pos}
@@ -738,6 +747,11 @@ func (e *Engine) parseSpecFunc(l rawLine, rest string, perr func(rawLine, string
 		return
 	}
 	name := strings.TrimSpace(rest[:i])
+	pure := false
+	if strings.HasPrefix(name, "pure ") {
+		pure = true
+		name = strings.TrimSpace(name[5:])
+	}
 	d := 0
 	j := i
 	for ; j < len(rest); j++ {
@@ -762,7 +776,7 @@ func (e *Engine) parseSpecFunc(l rawLine, rest string, perr func(rawLine, string
 		return
 	}
 	body := strings.TrimSpace(after[1:])
-	sf := &SpecFunc{Name: name, Src: body}
+	sf := &SpecFunc{Name: name, Src: body, Pure: pure}
 	for _, p := range splitTop(params, ',') {
 		f := strings.Fields(strings.TrimSpace(p))
 		if len(f) == 0 {
